@@ -393,6 +393,17 @@ def run_case(ctx, mods, case):
     cl = mods['clustering']
     pts = gen.present(case['points'], case['layout'])
     n = len(pts)
+    try:
+        _run_case(ctx, mods, case, cl, pts, n)
+    finally:
+        # the last call of every linkage uses the case's first threshold: if the caller refills this very buffer and
+        # clusters again (the runner's refill history), its first call repeats (array object, t) with other contents
+        if case.get('layout') == 'reuse' and case.get('ts'):
+            for name in LINKAGES:
+                install.guarded(ctx, f'complete:clustering.{name}', getattr(cl, name), pts, float(case['ts'][0]))
+
+
+def _run_case(ctx, mods, case, cl, pts, n):
     ctx.h('class', case['class'])
     ctx.h('layout', case['layout'])
     ctx.h('n', n if n < 5 else ('5-19' if n < 20 else ('20-59' if n < 60 else '60+')))
